@@ -624,7 +624,8 @@ def explore(prop, harness_name, fn, cfg, known=None, max_paths=4000, max_branche
                 _handle_known(res, fn, cfg, rec, known)
                 continue
             res.obligations += 1
-            res.oblig_names[name.split("[")[0]] = res.oblig_names.get(name.split("[")[0], 0) + 1
+            gkey = _group_key(name)
+            res.oblig_names[gkey] = res.oblig_names.get(gkey, 0) + 1
             if status == "discharged":
                 res.discharged += 1
             elif status == "unknown":
@@ -654,6 +655,13 @@ def explore(prop, harness_name, fn, cfg, known=None, max_paths=4000, max_branche
     if res.checks_reached == 0 and not res.inconclusive and not res.errors:
         res.errors.append("vacuous harness: no obligation reached on any path")
     return res
+
+
+def _group_key(name):
+    """obligation group = the name without its index suffixes: 'value(0, 1)[2]' -> 'value'"""
+    import re
+
+    return re.split(r"[\(\[]", name, maxsplit=1)[0]
 
 
 def _where_tb(e):
